@@ -552,7 +552,9 @@ def make_target(en, rec, types, lam=None, lam_mangled=None, tag=''):
                 extra += f', {m.group(2)}'
         loops = frame.auto_loop_frames(_LoopFn(f), extra='nv_thrown' + extra)
         return text + contract + loops, info
-    return Target(cname, [f], GEN_H, pre=pre, checks=CHECKS,
+    # enumerations a `switch` of the gradient generator names (NVE_<enum>_<enumerator> constants are generated from the AST)
+    enums = [(rec['tu'], 'nano::gradient3x3_mode'), (rec['tu'], 'nano::kernel3x3_type')] if 'gradient' in cls else []
+    return Target(cname, [f], GEN_H, pre=pre, checks=CHECKS, enums=enums,
                   source=f'{rec["file"]}:{rec["line"]} {cls}::{name}' + (f' lambda #{lam["index"]}' if lam else ''))
 
 
@@ -567,7 +569,8 @@ QUICK = [r'^nano::elemwise_gradient_t$', r'^nano::elemwise_generator_t<nano::ele
          r'^nano::pairwise_generator_t<nano::pairwise_product_t', r'^nano::generator_t$']
 QUICK_NAMES = {'process', 'select_struct', 'select_scalar', 'flatten', 'do_select', 'select', 'iterate', 'should_drop'}
 # enumerated functions that are deliberately NOT put under a frame target (with the reason: they go to not_decided)
-SKIP = {('nano::generator_t', 'all'): 'static factory accessor: an init-once singleton (function-local static filled under std::call_once), classified by the lint, not part of the const interface of a generator object'}
+SKIP = {('nano::base_pairwise_generator_t', 'make_pairwise'): 'static helper of the NON-const fit (builds the feature mapping before the generator is shared): outside the const interface; its std::map iterators are not in the printer\'s vocabulary',
+        ('nano::generator_t', 'all'): 'static factory accessor: an init-once singleton (function-local static filled under std::call_once), classified by the lint, not part of the const interface of a generator object'}
 
 
 def targets(tier='quick'):
